@@ -441,6 +441,59 @@ def check_metadata(k, desc):
     return {"task": f"{name}::metadata", "paths": 0, "solver_s": 0.0, "obligations": obs}
 
 
+def check_metadata_aggregates():
+    """component metadata for ports with aggregate shapes whose initial value is given as a dict / list / enum member: every
+    leaf is listed with the packed initial value, width and signedness of its shape"""
+    from amaranth.hdl import Shape, Const, signed
+    from amaranth.lib import wiring, data, enum
+    from amaranth.lib.wiring import In, Out, Signature
+
+    class Kind(enum.Enum, shape=2):
+        A = 0
+        B = 2
+    S = data.StructLayout({"x": 2, "y": signed(2)})
+    AL = data.ArrayLayout(3, 2)
+    cases = {
+        "st": (S, {"x": 1, "y": -1}), "ar": (AL, [5, 2]), "en": (Kind, Kind.B), "sg": (signed(4), -3),
+        "un": (data.UnionLayout({"a": 3, "b": 2}), {"a": 5}),
+    }
+    sig = Signature({"p": Out(Signature({n: (In if k % 2 else Out)(sh, init=iv) for k, (n, (sh, iv)) in enumerate(cases.items())})).array(2),
+                     **{n: Out(sh, init=iv) for n, (sh, iv) in cases.items()}})
+
+    class C(wiring.Component):
+        def __init__(self):
+            super().__init__(sig)
+
+        def elaborate(self, platform):
+            from amaranth.hdl import Module
+            return Module()
+    obs = []
+    try:
+        js = C().metadata.as_json()
+        C().metadata.validate(js)
+        err = None
+    except Exception as e:
+        js, err = None, repr(e)[:300]
+    obs.append(_closed("metadata[aggregates]::as_json-and-validate", err is None, {"exception": err, "signature": repr(sig)[:300]}))
+    if js is not None:
+        def leaf(node, path):
+            for step in path:
+                node = node["members"][step] if isinstance(step, str) else node[step]
+            return node
+        bad = []
+        top = js["interface"]
+        for n, (sh, iv) in cases.items():
+            want_init = Shape.cast(sh)
+            want = sh.const(iv).as_value().value if hasattr(sh, "const") else Const(iv, sh).value
+            cs = Shape.cast(sh)
+            for path in ((n,), ("p", 0, n), ("p", 1, n)):
+                node = leaf(top, path)
+                if not (node["type"] == "port" and int(node["init"]) == want and node["width"] == cs.width and node["signed"] == cs.signed):
+                    bad.append((path, node, want))
+        obs.append(_closed("metadata[aggregates]::packed-initial-values", not bad, {"mismatches": repr(bad)[:500]}))
+    return {"task": "metadata-aggregates", "paths": 0, "solver_s": 0.0, "obligations": obs}
+
+
 # ------------------------------------------------------------------------------------------------
 
 def tasks(tier):
@@ -449,6 +502,7 @@ def tasks(tier):
     for k in range(len(tr)):
         ts += [("structure", tier, k), ("connect", tier, k), ("metadata", tier, k)]
     ts.append(("errors",))
+    ts.append(("metadata-aggregates",))
     return ts
 
 
@@ -464,6 +518,8 @@ def run_task(task):
         return fn(task[2], desc)
     if k == "errors":
         return check_errors()
+    if k == "metadata-aggregates":
+        return check_metadata_aggregates()
     if k == "canary-connect":
         return check_connect(0, trees(2)[6], broken=True)
     raise KeyError(k)
